@@ -336,6 +336,14 @@ def subset_composition(ctx, rule="R3"):
             return "outer-rows[inner]"
         return None
     stores = [n for n in walk_own(f.node) if isinstance(n, ast.Assign) and len(n.targets) == 1 and isinstance(n.targets[0], ast.Subscript) and isinstance(n.targets[0].value, ast.Name)]
+    if not stores:
+        # numpy's two "masked write" functions are not synonyms: np.place(a, m, v) gives the k-th selected position the k-th value (it is
+        # a[m] = v), np.putmask(a, m, v) gives position n the value v[n % len(v)] - positions of the PARENT, not ranks within the selection
+        pm = [c for c in calls(f.node) if call_name(c) in ("np.putmask", "numpy.putmask") and len(c.args) == 3]
+        if len(pm) == 1 and base(pm[0].args[1]) == "outer" and base(pm[0].args[2]) == "inner":
+            ctx.bad("R3", f"{f.site()}::scatter", f"the inner mask is written with `{U(pm[0])[:80]}`: putmask takes the value for parent row n from position n of the "
+                    f"inner mask (cyclically), not the k-th value for the k-th selected row - nested subsetting does not compose unless the outer selection is a prefix")
+            return
     ctx.need(len(stores) == 1, f"{f.site()}: the scatter of the inner mask was not found as one subscript store")
     st = stores[0]
     tgt_base = base(st.targets[0].value)
